@@ -25,6 +25,7 @@ import traceback
 from concurrent.futures import ProcessPoolExecutor, as_completed
 
 VERIF = os.path.dirname(os.path.dirname(os.path.abspath(__file__)))
+OUT = os.environ.get('VERIF_OUT', VERIF)        # where evidence/ and replays/ go (self-tests redirect it)
 REPO = os.environ.get('VERIF_REPO', '/repo')
 DEFAULT_SEED = 20260925
 PYTHON = '/venv/bin/python'
@@ -313,7 +314,7 @@ def sig8(sig):
 
 
 def write_replay(pid, record, sig, detail, base_seed, shrink_execs, directory=None):
-    d = directory or os.path.join(VERIF, 'replays', pid)
+    d = directory or os.path.join(OUT, 'replays', pid)
     os.makedirs(d, exist_ok=True)
     path = os.path.join(d, '%s-%s.json' % (record.get('seed'), sig8(sig)))
     with open(path, 'w') as f:
@@ -374,7 +375,7 @@ def validate_evidence(ev):
 
 
 def write_evidence(pid, ev):
-    d = os.path.join(VERIF, 'evidence')
+    d = os.path.join(OUT, 'evidence')
     os.makedirs(d, exist_ok=True)
     path = os.path.join(d, '%s.json' % pid)
     tmp = path + '.tmp'
